@@ -570,6 +570,8 @@ def _list(ex, st, args, kw, node):
         return ex.alloc_list(st, list(x))
     if isinstance(x, LRef):
         return ex.alloc_list(st, list(st.heap[x.sid].items))
+    if type(x) is StrV and not x.s.startswith("<"):
+        return ex.alloc_list(st, [StrV(ch) for ch in x.s])         # list('abc'): its characters
     raise Undecided("list() of this value")
 
 
